@@ -11,7 +11,7 @@ use crate::Ctx;
 use refimpl as r;
 use serde_json::json;
 
-const RULE: &str = "reject side, enumerated completely: for two base keys per set (an honest key and a random in-range key) every (vector s1/s2, polynomial, coefficient index, out-of-range raw field value 2*eta+1 .. 2^bitlen-1) single-field corruption -> PrivateKey::try_from_bytes must be Err; plus random multi-field corruptions. Accept side: every field at each in-range value over a random background, random in-range keys with arbitrary rho/K/tr/t0 (incl. t0 range ends) -> must be Ok and into_bytes must return the input without tripping its range self-check (checked build). Non-trivial = distinct corrupted or in-range encodings evaluated.";
+const RULE: &str = "reject side, enumerated completely: for two base keys per set (an honest key and a random in-range key) every (vector s1/s2, polynomial, coefficient index, out-of-range raw field value 2*eta+1 .. 2^bitlen-1) single-field corruption -> PrivateKey::try_from_bytes must be Err; the same single-field corruptions over four extremal backgrounds (all other fields +eta, -eta, 0, alternating; quick: five coefficient indices per polynomial, thorough: all); plus random multi-field corruptions. Accept side: every field at each in-range value over a random background, random in-range keys with arbitrary rho/K/tr/t0 (incl. t0 range ends) -> must be Ok and into_bytes must return the input without tripping its range self-check (checked build). Non-trivial = distinct corrupted or in-range encodings evaluated.";
 
 pub fn run(ctx: &Ctx) -> StageOut {
     let mut acc = Acc::new();
@@ -94,6 +94,33 @@ fn run_set<S: PS>(ctx: &Ctx) -> Acc {
     });
     let mut acc = Acc::merge_all(accs);
     acc.count("single_field_partition_size", (n_polys * 256 * bad_raws.len() * 2) as u64);
+
+    // ---- the same partition over extremal backgrounds: every other field at +eta (raw 0), at -eta (raw
+    // 2*eta), at 0, alternating: a decision that aggregates over fields or polynomials (sum, running
+    // minimum, xor) instead of testing each field sees its most forgiving inputs here.
+    // quick: coefficient indices {0, 1, 127, 255, one random}; thorough: all 256.
+    let ext_bases: Vec<(String, Vec<u8>)> = [SPat::AllPlus, SPat::AllMinus, SPat::Zero, SPat::Alternating]
+        .into_iter().map(|sp| (format!("{sp:?}-base"), gen::hostile_sk(&mut g, p, sp, T0Pat::Random))).collect();
+    let extra_coeff = g.below(256) as usize;
+    let accs = par_map(n_polys * ext_bases.len(), |j| {
+        let mut a = Acc::new();
+        let (bname, base) = &ext_bases[j % ext_bases.len()];
+        let poly = j / ext_bases.len();
+        let vec_name = if poly < p.l { "s1" } else { "s2" };
+        let coeffs: Vec<usize> = if ctx.thorough() { (0..256).collect() } else { vec![0, 1, 127, 255, extra_coeff] };
+        for coeff in coeffs {
+            for &raw in &bad_raws {
+                let mut sk = base.clone();
+                gen::set_eta_field(p, &mut sk, poly, coeff, raw);
+                let what = format!("{vec_name}[{}][{coeff}] raw field {raw} (value {}) over the {bname}", if poly < p.l { poly } else { poly - p.l }, p.eta - i64::from(raw));
+                must_reject::<S>(&mut a, &format!("single-field-{vec_name}-{bname}"), &sk, &what);
+            }
+        }
+        a
+    });
+    for a in accs {
+        acc.merge(a);
+    }
 
     // ---- reject side: multi-field and pattern corruptions -----------------------------------------
     let n_multi = ctx.budget(200, 200_000) as usize;
